@@ -162,6 +162,10 @@ Definition model_enc (k : N) (v : flat) : option bytes :=
   match k, v with
   | 1, ([m; e], [key; val]) => Some (enc_entry {| e_key := key; e_val := val; e_meta := m; e_exp := e |})
   | 3, ([m; e], [val]) => Some (enc_value {| v_meta := m; v_exp := e; v_value := val |})
+  | 14, ([m; e], [val]) =>   (* the whole buffer of EncodedSize() bytes after EncodeValue *)
+      Some (enc_value {| v_meta := m; v_exp := e; v_value := val |})
+  | 15, ([m; e], [val]) =>   (* EncodedSize() as 4 big-endian bytes *)
+      Some (be32 (encoded_size {| v_meta := m; v_exp := e; v_value := val |}))
   | 4, ([a; b; c; d], []) => Some (enc_vptr {| p_len := a; p_off := b; p_fid := c; p_bucket := d |})
   | 5, ([ts; ttl; kind; mc], [p]) =>
       Some (enc_lock {| l_primary := p; l_ts := ts; l_ttl := ttl; l_kind := kind; l_min_commit := mc |})
